@@ -795,9 +795,7 @@ theorem tree_shows_nolist (pre : Bytes) (labels : List Bytes) (t : GM.Node) (hs 
     treeOutput pre (finishDoc false (transform labels (events labels t)) t) = absOutput pre labels (events labels t) := by
   simp only [shapeOKB, Bool.and_eq_true, Bool.false_or, List.isEmpty_iff] at hs
   obtain ⟨⟨⟨⟨⟨hb, hd⟩, _⟩, _⟩, _⟩, he, hl⟩ := hs
-  have hf : isFootKind t.kind = false := by
-    obtain ⟨k, a, cs⟩ := t
-    cases k <;> simp_all [GM.Node.kind, isDocKind, isFootKind]
+  have hf : isFootKind t.kind = false := by simpa using hd
   have B := body_node t hb hf (by rw [hl]; intro cs hc; simp at hc)
   rw [dropLists_id t hl] at B
   have hev : events labels t = [] := by simp [events, he]
